@@ -147,6 +147,23 @@ func genEnv(r *Rng, malformed bool) []string {
 		"-tags=netgo", "-tags=netgo\t-mod=mod", "-mod=mod -tags=x,y", "-mod=readonly", "-tags=a\n-modfile=/tmp/evil.mod"}
 	n := r.Intn(13)
 	var env []string
+	if r.Chance(15) {
+		// saturated: EVERY guarded name occurs (each in some spelling, shuffled, unrelated entries in
+		// between), and more spellings follow - the shape an implementation with an "all seen, done" exit
+		// or a per-name first/last rule handles differently from a short environment
+		keys := append([]string{}, guardedKeysGo...)
+		for i := len(keys) - 1; i > 0; i-- {
+			j := r.Intn(i + 1)
+			keys[i], keys[j] = keys[j], keys[i]
+		}
+		for _, k := range keys {
+			env = append(env, spell(k)+"="+pick(r, values))
+			if r.Chance(30) {
+				env = append(env, pick(r, unrelatedKeys)+"="+pick(r, values))
+			}
+		}
+		n = 1 + r.Intn(5)
+	}
 	for i := 0; i < n; i++ {
 		switch c := r.Intn(10); {
 		case c < 4:
@@ -170,7 +187,7 @@ func genEnv(r *Rng, malformed bool) []string {
 }
 
 func suiteEnv(c *Ctx) error {
-	c.Res.Rule = "raw envp generated from pools (guarded keys in 6 spellings incl. U+017F/U+0131, near-miss keys, entries without '=', duplicates); child process prints os.Environ() and GetHardenedEnv(); non-trivial = child environ has >=1 guarded-key spelling and >=1 unrelated entry; distinct by sha256 of the envp"
+	c.Res.Rule = "raw envp generated from pools (guarded keys in 6 spellings incl. U+017F/U+0131, near-miss keys, entries without '=', duplicates; one case in seven SATURATED: all seven guarded names present, then further spellings); child process prints os.Environ() and GetHardenedEnv(); non-trivial = child environ has >=1 guarded-key spelling and >=1 unrelated entry; distinct by sha256 of the envp"
 	n := c.N
 	if n == 0 {
 		n = 600
